@@ -1012,4 +1012,448 @@ theorem stdinWire_eq (rid : Nat) (body : Bytes) (rk : BodyReader) (hnone : rk = 
       have hsm : body.length ≤ maxWrite := by simpa [BufW.avail] using hbig
       exact close_J rid body _ ⟨[], by simp [Fulls], by simp [recordsOf], by simpa using hsm, by simp⟩
 
+/-! #### `streamReader.Read` call by call: progress -/
+
+/-- the loop over records ends, without error, only on a record that is not stderr; that record
+becomes `w.buf` and is the last one consumed; everything consumed before it is stderr -/
+theorem fill_spec : ∀ (f : Nat) (s : SR) (acc : List Rec) (s' : SR) (c : List Rec),
+    SR.fill f s acc = .ok (s', none, c) →
+    ∃ pre rec, c = acc ++ pre ++ [rec] ∧ (∀ r ∈ pre, r.typ = typeStderr) ∧
+      rec.typ ≠ typeStderr ∧ s'.buf = rec.content := by
+  intro f
+  induction f with
+  | zero => intro s acc s' c h; simp [SR.fill] at h
+  | succ f ih =>
+    intro s acc s' c h
+    unfold SR.fill at h
+    cases hr : readRecord s.inp with
+    | error e => rw [hr] at h; cases h
+    | ok v =>
+      obtain ⟨r, rest⟩ := v
+      rw [hr] at h
+      cases r with
+      | error e => simp at h
+      | ok rec =>
+        simp only at h
+        by_cases ht : rec.typ = typeStderr
+        · simp only [ht, if_true] at h
+          obtain ⟨pre, rec', hc, hpre, hne, hb⟩ := ih _ _ _ _ h
+          refine ⟨rec :: pre, rec', by simp [hc], ?_, hne, hb⟩
+          intro r hr'
+          rcases List.mem_cons.mp hr' with rfl | hm
+          · exact ht
+          · exact hpre r hm
+        · simp only [ht, if_false] at h
+          simp only [Except.ok.injEq, Prod.mk.injEq] at h
+          obtain ⟨hs, _, hc⟩ := h
+          exact ⟨[], rec, by simp [hc], by simp, ht, by rw [← hs]⟩
+
+/-- a call with a non-empty buffer that reports no error and delivers no bytes has just taken an
+empty data record off the connection -/
+theorem read_progress (s s' : SR) (plen : Nat) (o : ReadOut) (hp : 0 < plen)
+    (h : s.read plen = .ok (s', o)) :
+    o.err.isSome = true ∨ o.data ≠ [] ∨
+      ∃ rec, o.consumed.getLast? = some rec ∧ isEmptyData rec = true := by
+  unfold SR.read at h
+  have hp0 : ¬ (plen = 0) := by omega
+  simp only [hp0, if_false] at h
+  by_cases hb : s.buf.length ≠ 0
+  · rw [if_pos hb] at h
+    simp only [SR.deliver, Except.ok.injEq, Prod.mk.injEq] at h
+    right; left
+    rw [← h.2]
+    simp only
+    intro he
+    have := congrArg List.length he
+    simp only [List.length_take, List.length_nil] at this
+    omega
+  · rw [if_neg hb] at h
+    cases hf : SR.fill (s.inp.length + 1) s [] with
+    | error e => rw [hf] at h; cases h
+    | ok v =>
+      obtain ⟨s1, e, c⟩ := v
+      rw [hf] at h
+      cases e with
+      | some e =>
+        simp only [Except.ok.injEq, Prod.mk.injEq] at h
+        left; rw [← h.2]; rfl
+      | none =>
+        simp only [SR.deliver, Except.ok.injEq, Prod.mk.injEq] at h
+        obtain ⟨pre, rec, hc, _, hne, hbuf⟩ := fill_spec _ _ _ _ _ hf
+        by_cases hemp : rec.content = []
+        · right; right
+          refine ⟨rec, ?_, ?_⟩
+          · rw [← h.2]; simp [hc]
+          · simp [isEmptyData, hne, hemp]
+        · right; left
+          rw [← h.2]
+          simp only
+          intro he
+          have := congrArg List.length he
+          rw [hbuf] at this
+          simp only [List.length_take, List.length_nil] at this
+          have : 0 < rec.content.length := List.length_pos_iff.mpr hemp
+          omega
+
+/-- over a whole sequence of reads: calls without progress ≤ empty data records consumed -/
+theorem readAll_zero_le (plen : Nat) (hp : 0 < plen) : ∀ (f : Nat) (s : SR) (t t' : Trace),
+    SR.readAll plen f s t = .ok t' → t.zero ≤ t.empties → t'.zero ≤ t'.empties := by
+  intro f
+  induction f with
+  | zero => intro s t t' h; simp [SR.readAll] at h
+  | succ f ih =>
+    intro s t t' h hle
+    unfold SR.readAll at h
+    cases hr : s.read plen with
+    | error e => rw [hr] at h; cases h
+    | ok v =>
+      obtain ⟨s1, o⟩ := v
+      rw [hr] at h
+      simp only at h
+      cases he : o.err with
+      | some e =>
+        rw [he] at h
+        simp only [Except.ok.injEq] at h
+        rw [← h]; simp only; omega
+      | none =>
+        rw [he] at h
+        simp only at h
+        refine ih _ _ _ h ?_
+        simp only
+        by_cases hd : o.data.isEmpty = true
+        · simp only [hd, if_true]
+          have hprog := read_progress s s1 plen o hp hr
+          rw [he] at hprog
+          have hd' : o.data = [] := by simpa using hd
+          rcases hprog with h1 | h1 | ⟨rec, hl, hr2⟩
+          · simp at h1
+          · exact absurd hd' h1
+          · have : 1 ≤ (o.consumed.filter isEmptyData).length := by
+              have hm : rec ∈ o.consumed.filter isEmptyData :=
+                List.mem_filter.mpr ⟨List.mem_of_getLast? hl, hr2⟩
+              exact List.length_pos_of_mem hm
+            omega
+        · have hd' : o.data.isEmpty = false := by simpa using hd
+          simp only [hd', Bool.false_eq_true, if_false]; omega
+
+/-! #### the exact number of reads without progress, for every framing -/
+
+def emptyOuts (ps : List Piece) : Nat := ((outsOf ps).filter (·.isEmpty)).length
+
+def AllErr (ps : List Piece) : Prop := ∀ p ∈ ps, p.isErr = true
+
+theorem pieces_split (ps : List Piece) :
+    AllErr ps ∨ ∃ pre q qs, ps = pre ++ q :: qs ∧ AllErr pre ∧ q.isErr = false := by
+  induction ps with
+  | nil => left; simp [AllErr]
+  | cons p rest ih =>
+    cases hp : p.isErr with
+    | false => right; exact ⟨[], p, rest, rfl, by simp [AllErr], hp⟩
+    | true =>
+      rcases ih with h | ⟨pre, q, qs, he, hpre, hq⟩
+      · left
+        intro x hx
+        rcases List.mem_cons.mp hx with rfl | hm
+        · exact hp
+        · exact h x hm
+      · right
+        refine ⟨p :: pre, q, qs, by simp [he], ?_, hq⟩
+        intro x hx
+        rcases List.mem_cons.mp hx with rfl | hm
+        · exact hp
+        · exact hpre x hm
+
+theorem outsOf_allErr {ps : List Piece} (h : AllErr ps) : outsOf ps = [] := by
+  unfold outsOf
+  have : ps.filter (fun p => !p.isErr) = [] := by
+    rw [List.filter_eq_nil_iff]
+    intro p hp
+    simp [h p hp]
+  rw [this]; rfl
+
+theorem outsOf_split {pre qs : List Piece} {q : Piece} (h : AllErr pre) (hq : q.isErr = false) :
+    outsOf (pre ++ q :: qs) = q.content :: outsOf qs := by
+  have h0 : (pre.filter (fun p => !p.isErr)) = [] := by
+    rw [List.filter_eq_nil_iff]
+    intro p hp
+    simp [h p hp]
+  simp [outsOf, List.filter_append, h0, List.filter_cons, hq]
+
+theorem errsOf_split {pre qs : List Piece} {q : Piece} (hq : q.isErr = false) :
+    errsOf (pre ++ q :: qs) = errsOf pre ++ errsOf qs := by
+  simp [errsOf, List.filter_append, List.filter_cons, hq]
+
+theorem framing_cons (rid : Nat) (p : Piece) (ps : List Piece) (tail : Bytes) :
+    framing rid (p :: ps) tail = pieceBytes rid p ++ framing rid ps tail := by
+  simp [framing]
+
+theorem isEmptyData_stderr {r : Rec} (h : r.typ = typeStderr) : isEmptyData r = false := by
+  simp [isEmptyData, h]
+
+/-- the record loop over a framing that holds only stderr pieces: all diverted, then EndRequest -/
+theorem fill_allErr (rid : Nat) (hid : rid < 65536) (tail : Bytes) :
+    ∀ (ps : List Piece) (f : Nat) (e : Bytes) (acc : List Rec), WellSized ps → AllErr ps → ps.length < f →
+    ∃ rest c, SR.fill f { inp := framing rid ps tail, buf := [], stderr := e } acc
+        = .ok ({ inp := rest, buf := [], stderr := e ++ errsOf ps }, some .eof, c) ∧
+      (c.filter isEmptyData).length = (acc.filter isEmptyData).length := by
+  intro ps
+  induction ps with
+  | nil =>
+    intro f e acc _ _ hf
+    cases f with
+    | zero => omega
+    | succ f =>
+      obtain ⟨rest, hr⟩ := readRecord_endRequest rid tail hid
+      refine ⟨rest, acc, ?_, rfl⟩
+      simp [SR.fill, framing, hr, errsOf]
+  | cons p ps ih =>
+    intro f e acc hws hall hf
+    cases f with
+    | zero => omega
+    | succ f =>
+      have hp := hws p (List.mem_cons_self ..)
+      have hpe := hall p (List.mem_cons_self ..)
+      obtain ⟨rest, c, hfill, hcount⟩ := ih f (e ++ p.content)
+        (acc ++ [{ typ := typeStderr, id := rid, content := p.content }])
+        (fun x hx => hws x (List.mem_cons_of_mem _ hx)) (fun x hx => hall x (List.mem_cons_of_mem _ hx))
+        (by simp at hf; omega)
+      refine ⟨rest, c, ?_, ?_⟩
+      · unfold SR.fill
+        simp only [framing_cons, pieceBytes, hpe, if_true]
+        rw [readRecord_respRecord typeStderr rid p.content p.pad _ (by decide) (by decide) hid hp.1 hp.2]
+        simp only [if_true]
+        rw [hfill]
+        simp [errsOf, List.filter_cons, hpe]
+      · rw [hcount]
+        simp [List.filter_append, isEmptyData]
+
+/-- the record loop over a framing whose first stdout piece is `q`: the stderr pieces before it
+are diverted, `q` becomes the buffer -/
+theorem fill_split (rid : Nat) (hid : rid < 65536) (tail : Bytes) (q : Piece) (qs : List Piece)
+    (hq : q.isErr = false) :
+    ∀ (pre : List Piece) (f : Nat) (e : Bytes) (acc : List Rec), WellSized (pre ++ q :: qs) → AllErr pre →
+      pre.length < f →
+    ∃ c, SR.fill f { inp := framing rid (pre ++ q :: qs) tail, buf := [], stderr := e } acc
+        = .ok ({ inp := framing rid qs tail, buf := q.content, stderr := e ++ errsOf pre }, none, c) ∧
+      (c.filter isEmptyData).length =
+        (acc.filter isEmptyData).length + (if q.content.isEmpty then 1 else 0) := by
+  intro pre
+  induction pre with
+  | nil =>
+    intro f e acc hws _ hf
+    cases f with
+    | zero => omega
+    | succ f =>
+      have hp := hws q (by simp)
+      refine ⟨acc ++ [{ typ := typeStdout, id := rid, content := q.content }], ?_, ?_⟩
+      · unfold SR.fill
+        simp only [List.nil_append, framing_cons, pieceBytes, hq, Bool.false_eq_true, if_false]
+        rw [readRecord_respRecord typeStdout rid q.content q.pad _ (by decide) (by decide) hid hp.1 hp.2]
+        have : ¬ (typeStdout = typeStderr) := by decide
+        simp [this, errsOf]
+      · have : ¬ (typeStdout = typeStderr) := by decide
+        simp [List.filter_append, isEmptyData, List.filter_cons, this]
+        split <;> simp_all
+  | cons p pre ih =>
+    intro f e acc hws hall hf
+    cases f with
+    | zero => omega
+    | succ f =>
+      have hp := hws p (by simp)
+      have hpe := hall p (List.mem_cons_self ..)
+      obtain ⟨c, hfill, hcount⟩ := ih f (e ++ p.content)
+        (acc ++ [{ typ := typeStderr, id := rid, content := p.content }])
+        (fun x hx => hws x (by simp at hx ⊢; right; exact hx)) (fun x hx => hall x (List.mem_cons_of_mem _ hx))
+        (by simp at hf; omega)
+      refine ⟨c, ?_, ?_⟩
+      · unfold SR.fill
+        simp only [List.cons_append, framing_cons, pieceBytes, hpe, if_true]
+        rw [readRecord_respRecord typeStderr rid p.content p.pad _ (by decide) (by decide) hid hp.1 hp.2]
+        simp only [if_true]
+        rw [hfill]
+        simp [errsOf, List.filter_cons, hpe]
+      · rw [hcount]
+        simp [List.filter_append, isEmptyData]
+
+/-- an upper bound on the number of `Read` calls still needed -/
+def callBound (ps : List Piece) (b : Bytes) : Nat :=
+  b.length + (ps.map (fun p => p.content.length + 1)).sum + 1
+
+theorem emptyOuts_allErr {ps : List Piece} (h : AllErr ps) : emptyOuts ps = 0 := by
+  simp [emptyOuts, outsOf_allErr h]
+
+theorem emptyOuts_split {pre qs : List Piece} {q : Piece} (h : AllErr pre) (hq : q.isErr = false) :
+    emptyOuts (pre ++ q :: qs) = (if q.content.isEmpty then 1 else 0) + emptyOuts qs := by
+  unfold emptyOuts
+  rw [outsOf_split h hq, List.filter_cons]
+  split <;> simp <;> omega
+
+theorem errsOf_allErr_nil : errsOf [] = [] := rfl
+
+/-- THE call-level theorem for framings: reading any framing of (stdout, stderr) through `Read`
+calls with any buffer size `plen > 0`, from any buffered state, delivers exactly the stdout
+bytes, diverts exactly the stderr bytes, ends cleanly, and the number of calls that return (0, nil)
+is exactly the number of empty stdout records — stderr records, however many in a row, never
+produce one. -/
+theorem readAll_framing (rid : Nat) (hid : rid < 65536) (tail : Bytes) (plen : Nat) (hp : 0 < plen) :
+    ∀ (f : Nat) (ps : List Piece) (b e : Bytes) (t : Trace), WellSized ps → callBound ps b ≤ f →
+      SR.readAll plen f { inp := framing rid ps tail, buf := b, stderr := e } t =
+        .ok { zero := t.zero + emptyOuts ps, empties := t.empties + emptyOuts ps,
+              out := t.out ++ b ++ (outsOf ps).flatten, stderr := e ++ errsOf ps, fin := .eof } := by
+  intro f
+  induction f with
+  | zero => intro ps b e t _ hb; unfold callBound at hb; omega
+  | succ f ih =>
+    intro ps b e t hws hbound
+    unfold SR.readAll SR.read
+    have hp0 : ¬ (plen = 0) := by omega
+    simp only [hp0, if_false]
+    by_cases hb : b.length ≠ 0
+    · -- bytes left in w.buf: deliver some of them
+      rw [if_pos (show ({ inp := framing rid ps tail, buf := b, stderr := e } : SR).buf.length ≠ 0 from hb)]
+      simp only [SR.deliver]
+      have hn : 0 < min plen b.length := by omega
+      have hdata : (List.take (min plen b.length) b).isEmpty = false := by
+        cases hh : List.take (min plen b.length) b with
+        | nil =>
+          have := congrArg List.length hh
+          simp only [List.length_take, List.length_nil] at this
+          omega
+        | cons _ _ => rfl
+      simp only [List.filter_nil, List.length_nil, Nat.add_zero, hdata, Bool.false_eq_true, if_false]
+      rw [ih ps (List.drop (min plen b.length) b) e _ hws (by
+        unfold callBound at hbound ⊢
+        simp only [List.length_drop]
+        omega)]
+      simp only [List.append_assoc, List.take_append_drop]
+    · -- w.buf is empty: the record loop
+      have hb0 : b = [] := by
+        have : b.length = 0 := by omega
+        exact List.length_eq_zero_iff.mp this
+      subst hb0
+      rw [if_neg (show ¬ (({ inp := framing rid ps tail, buf := [], stderr := e } : SR).buf.length ≠ 0) from hb)]
+      have hfuel : ∀ qs : List Piece, qs.length < (framing rid qs tail).length + 1 := fun qs => framing_length rid qs tail
+      rcases pieces_split ps with hall | ⟨pre, q, qs, hps, hpre, hq⟩
+      · obtain ⟨rest, c, hfill, hcount⟩ := fill_allErr rid hid tail ps _ e [] hws hall (hfuel ps)
+        rw [hfill]
+        simp only [hcount, List.filter_nil, List.length_nil, Nat.add_zero]
+        simp [emptyOuts_allErr hall, outsOf_allErr hall]
+      · subst hps
+        have hlen : pre.length < (framing rid (pre ++ q :: qs) tail).length + 1 := by
+          have := hfuel (pre ++ q :: qs)
+          simp only [List.length_append, List.length_cons] at this
+          omega
+        obtain ⟨c, hfill, hcount⟩ := fill_split rid hid tail q qs hq pre _ e [] hws hpre hlen
+        rw [hfill]
+        simp only [SR.deliver, hcount, List.filter_nil, List.length_nil, Nat.zero_add]
+        have hwsq : WellSized qs := fun x hx => hws x (by simp; right; right; exact hx)
+        rw [ih qs (List.drop (min plen q.content.length) q.content) (e ++ errsOf pre) _ hwsq (by
+          unfold callBound at hbound ⊢
+          simp only [List.length_drop, List.map_append, List.map_cons, List.sum_append, List.sum_cons,
+            List.length_nil] at hbound ⊢
+          omega)]
+        rw [emptyOuts_split hpre hq, outsOf_split hpre hq, errsOf_split hq]
+        have hempty : (List.take (min plen q.content.length) q.content).isEmpty = q.content.isEmpty := by
+          cases hc : q.content with
+          | nil => simp
+          | cons x xs =>
+            have : 0 < min plen (x :: xs).length := by simp; omega
+            cases hh : List.take (min plen (x :: xs).length) (x :: xs) with
+            | nil =>
+              have := congrArg List.length hh
+              simp only [List.length_take, List.length_nil] at this
+              omega
+            | cons _ _ => rfl
+        simp only [hempty, List.flatten_cons, List.append_nil, List.append_assoc, List.take_append_drop]
+        congr 1
+        cases q.content.isEmpty <;> simp <;> omega
+
+theorem callBound_le (rid : Nat) (ps : List Piece) (tail : Bytes) :
+    callBound ps [] ≤ 2 * (framing rid ps tail).length + 2 := by
+  have : ∀ l : List Piece, (l.map (fun p => p.content.length + 1)).sum ≤ (l.flatMap (pieceBytes rid)).length := by
+    intro l
+    induction l with
+    | nil => simp
+    | cons x xs ih =>
+      have : x.content.length + 1 ≤ (pieceBytes rid x).length := by
+        simp [pieceBytes, respRecord]; omega
+      simp only [List.map_cons, List.sum_cons, List.flatMap_cons, List.length_append]
+      omega
+  have := this ps
+  unfold callBound
+  simp only [framing, List.length_append, List.length_nil]
+  omega
+
+/-- `readAll_framing` for a fresh reader and the fuel `readTrace` uses -/
+theorem readTrace_framing (rid : Nat) (hid : rid < 65536) (ps : List Piece) (tail : Bytes)
+    (h : WellSized ps) (plen : Nat) (hp : 0 < plen) :
+    readTrace (framing rid ps tail) plen =
+      .ok { zero := emptyOuts ps, empties := emptyOuts ps, out := (outsOf ps).flatten,
+            stderr := errsOf ps, fin := .eof } := by
+  unfold readTrace
+  rw [readAll_framing rid hid tail plen hp _ ps [] [] {} h (callBound_le rid ps tail)]
+  simp
+
+/-! #### the reference decoder's count of empty data records, for framings -/
+
+theorem decodeRecord_respRecord (typ rid : Nat) (c : Bytes) (pad : Nat) (rest : Bytes)
+    (ht : typ < 256) (hid : rid < 65536) (hc : c.length < 65536) (hp : pad < 256) :
+    decodeRecord (respRecord typ rid c pad ++ rest) = some ({ typ := typ, id := rid, content := c }, rest) := by
+  unfold respRecord
+  simp only [List.cons_append, List.nil_append, List.append_assoc, decodeRecord, b8_toNat]
+  have hv : ¬ ((1 : UInt8) ≠ 1) := by decide
+  have hcl : c.length / 256 % 256 * 256 + c.length % 256 = c.length := be16_join _ hc
+  have hpp : pad % 256 = pad := by omega
+  have hlen : ¬ ((c ++ (List.replicate pad 0 ++ rest)).length <
+      c.length / 256 % 256 * 256 + c.length % 256 + pad % 256) := by
+    simp only [List.length_append, List.length_replicate]
+    omega
+  simp only [hv, hlen, if_false]
+  rw [hcl, hpp]
+  have e1 : typ % 256 = typ := by omega
+  have e2 : rid / 256 % 256 * 256 + rid % 256 = rid := be16_join _ hid
+  simp only [e1, e2]
+  congr 2
+  · simp
+  · rw [← List.append_assoc]
+    rw [List.drop_append_of_le_length (by simp)]
+    simp
+
+theorem emptyOuts_cons (p : Piece) (ps : List Piece) :
+    emptyOuts (p :: ps) = (if !p.isErr && p.content.isEmpty then 1 else 0) + emptyOuts ps := by
+  unfold emptyOuts outsOf
+  cases hp : p.isErr <;> simp [List.filter_cons, hp]
+  split <;> simp <;> omega
+
+theorem emptyDataRecords_framing (rid : Nat) (hid : rid < 65536) (tail : Bytes) :
+    ∀ (ps : List Piece) (f : Nat), WellSized ps → ps.length < f →
+      emptyDataRecords f (framing rid ps tail) = emptyOuts ps := by
+  intro ps
+  induction ps with
+  | nil =>
+    intro f _ hf
+    cases f with
+    | zero => omega
+    | succ f =>
+      simp only [framing, List.flatMap_nil, List.nil_append, emptyDataRecords]
+      rw [decodeRecord_respRecord typeEndRequest rid _ 0 tail (by decide) hid (by simp) (by omega)]
+      simp [emptyOuts, outsOf]
+  | cons p ps ih =>
+    intro f hws hf
+    cases f with
+    | zero => omega
+    | succ f =>
+      have hp := hws p (List.mem_cons_self ..)
+      rw [framing_cons, emptyOuts_cons]
+      unfold emptyDataRecords pieceBytes
+      rw [decodeRecord_respRecord _ rid p.content p.pad _ (by split <;> decide) hid hp.1 hp.2]
+      simp only
+      rw [ih f (fun x hx => hws x (List.mem_cons_of_mem _ hx)) (by simp at hf; omega)]
+      cases hpe : p.isErr with
+      | true => simp [typeStderr, typeEndRequest]
+      | false =>
+        have h1 : ¬ (typeStdout = typeEndRequest) := by decide
+        have h2 : (typeStdout != typeStderr) = true := by decide
+        simp [h1, h2]
+
 end Casket.FCGISpec
